@@ -29,6 +29,32 @@ pub fn take_panic() -> String {
     l.or(g).unwrap_or_else(|| "panic@?".into())
 }
 
+/// Watchdog for code that must terminate (C08: creation): if the guard is still alive after `secs`
+/// seconds the process exits with status 17 after a line on stderr; the engine attributes the death to
+/// the case in flight (`inflight.txt`).  A blocked creation cannot be unwound, so the run ends there.
+pub struct Watchdog(std::sync::Arc<std::sync::atomic::AtomicBool>);
+pub fn watchdog(secs: u64, what: String) -> Watchdog {
+    let done = std::sync::Arc::new(std::sync::atomic::AtomicBool::new(false));
+    let d2 = done.clone();
+    std::thread::spawn(move || {
+        let t0 = std::time::Instant::now();
+        while t0.elapsed().as_secs() < secs {
+            std::thread::sleep(std::time::Duration::from_millis(200));
+            if d2.load(std::sync::atomic::Ordering::SeqCst) {
+                return;
+            }
+        }
+        eprintln!("watchdog: {} did not terminate within {} s", what, secs);
+        std::process::exit(17);
+    });
+    Watchdog(done)
+}
+impl Drop for Watchdog {
+    fn drop(&mut self) {
+        self.0.store(true, std::sync::atomic::Ordering::SeqCst);
+    }
+}
+
 /// run a closure, mapping a panic to its site
 pub fn guarded<T>(f: impl FnOnce() -> T) -> Result<T, String> {
     match std::panic::catch_unwind(std::panic::AssertUnwindSafe(f)) {
